@@ -104,6 +104,39 @@ Theorem c05_portgraph_single_embeds :
       /\ Dist m nk.
 Proof. exact pg_single_embeds. Qed.
 
+(** Port graphs, completeness half: refuted on the faithful model (known
+    findings D5, D6 of KNOWN_FINDINGS.json; the same witnesses fail on the
+    implementation — corpus of the pg sub-checks).  In both cases the identity is
+    an embedding (and by [pg_embedding_satisfies] satisfies every constraint), yet
+    the single-pattern matcher reports nothing: the host-side indexing never
+    offers the binding. *)
+Definition d5_pattern : pghost := {| pg_nodes := [Some (2, 2); Some (2, 0)]%N; pg_links := [(0, 1, 1, 0); (0, 0, 0, 1)]%N |}.
+
+(** D5: a line that passes through its own start node (self-loop out0 -> in1, the
+    line goes on through out1): key Along(0, out0)@2 lies beyond the root, where
+    walk_path stops *)
+Theorem c05_portgraph_complete_refuted_line_through_root :
+  exists cs nk, pg_cvec_full d5_pattern 0 = Ok (cs, nk)
+    /\ lines_sound d5_pattern 0 = true /\ keys_distinct nk = true /\ pg_host_wfb d5_pattern = true
+    /\ single pg_dom 1000 cs d5_pattern = Ok [].
+Proof. eexists _, _. split; [vm_compute; reflexivity|]. vm_compute. auto. Qed.
+
+Definition d6_pattern : pghost :=
+  {| pg_nodes := [Some (0, 1); Some (1, 1); Some (2, 0); Some (0, 1)]%N; pg_links := [(0, 0, 1, 0); (1, 0, 2, 0); (3, 0, 2, 1)]%N |}.
+Definition d6_host : pghost :=
+  {| pg_nodes := [Some (0, 1); Some (1, 2); Some (2, 0); Some (0, 1)]%N; pg_links := [(0, 0, 1, 0); (1, 0, 2, 0); (3, 0, 2, 1)]%N |}.
+
+(** D6: the pattern needs a second index root (node 2); in the host node 1 has one
+    more, unlinked, output port, so the root search proposes node 1 and never node 2.
+    The pattern is found in itself. *)
+Theorem c05_portgraph_complete_refuted_root_hidden :
+  exists cs nk, pg_cvec_full d6_pattern 0 = Ok (cs, nk)
+    /\ lines_sound d6_pattern 0 = true /\ keys_distinct nk = true /\ pg_host_wfb d6_host = true
+    /\ pg_links d6_host = pg_links d6_pattern
+    /\ (exists m, single pg_dom 1000 cs d6_pattern = Ok [m])
+    /\ single pg_dom 1000 cs d6_host = Ok [].
+Proof. eexists _, _. split; [vm_compute; reflexivity|]. vm_compute. repeat split; eauto. Qed.
+
 Example c05_example :
   single string_dom 100 (s_cvec [Lit 97; Var 1; Var 1]%N) [98; 97; 99; 99; 97; 98; 98]%N
   = Ok [SBound 1 3; SBound 4 3]%N
@@ -123,3 +156,5 @@ Print Assumptions c05_matrix_single_exact.
 Print Assumptions c05_matrix_match_exists_exact.
 Print Assumptions c05_matrix_naive_exact.
 Print Assumptions c05_portgraph_single_embeds.
+Print Assumptions c05_portgraph_complete_refuted_line_through_root.
+Print Assumptions c05_portgraph_complete_refuted_root_hidden.
